@@ -271,3 +271,69 @@ func init() {
 		fmt.Println(r.Instances)
 	}
 }
+
+// literal.rawparse (C06, C07, C14, C17): the parser keeps a numeric literal's
+// token text unchanged in Literal.Value - with its WGSL type suffix (64u, 1.5f,
+// 3i, 2h, 7lu) and, for integers, possibly in hexadecimal. A call of
+// strconv.ParseInt / ParseUint / ParseFloat / Atoi or fmt.Sscanf whose text
+// argument is syntactically the Value field of a parser.Literal therefore fails
+// (or stops early) on every suffixed or hexadecimal literal; the sites that did
+// this treated the failure as "attribute absent" (@workgroup_size(64u) became
+// 1, @align(0x10) was ignored, an override lost its default). Numeric text must
+// be parsed by the lowerer's literal parsers, which strip the suffix first and
+// use base 0.
+func (c *Ctx) runLiteralRawParse(r *Report, rule string, pkgs func(string) bool, exceptions map[string]string) {
+	n := 0
+	for _, fn := range c.allFuncs() {
+		if !pkgs(fn.Pkg.Rel) {
+			continue
+		}
+		info := fn.Pkg.Info
+		ord := map[string]int{}
+		ast.Inspect(fn.Decl.Body, func(m ast.Node) bool {
+			call, ok := m.(*ast.CallExpr)
+			if !ok || len(call.Args) == 0 {
+				return true
+			}
+			f := calleeOf(info, call)
+			if f == nil || f.Pkg() == nil {
+				return true
+			}
+			isParse := (f.Pkg().Path() == "strconv" && (strings.HasPrefix(f.Name(), "Parse") || f.Name() == "Atoi")) ||
+				(f.Pkg().Path() == "fmt" && strings.HasPrefix(f.Name(), "Sscan"))
+			if !isParse {
+				return true
+			}
+			n++
+			se, ok := ast.Unparen(call.Args[0]).(*ast.SelectorExpr)
+			raw := false
+			if ok && se.Sel.Name == "Value" {
+				if tv, ok := info.Types[se.X]; ok {
+					t := tv.Type
+					if p, ok := t.Underlying().(*types.Pointer); ok {
+						t = p.Elem()
+					}
+					if nt := namedOf(t); nt != nil && nt.Obj().Name() == "Literal" && nt.Obj().Pkg() != nil && relPkg(nt.Obj().Pkg().Path()) == "wgsl/internal/parser" {
+						raw = true
+					}
+				}
+			}
+			cons := fn.id() + ":" + f.Pkg().Name() + "." + f.Name()
+			ord[cons]++
+			if ord[cons] > 1 {
+				cons += "#" + itoa(ord[cons])
+			}
+			pos := c.pos(call.Pos())
+			switch {
+			case !raw:
+				r.ok(rule, cons, pos, "")
+			case exceptions[cons] != "":
+				r.exc(rule, cons, pos, exceptions[cons])
+			default:
+				r.viol(rule, cons, pos, fn.id()+" hands the raw token text "+types.ExprString(call.Args[0])+" of a numeric literal to "+f.Pkg().Name()+"."+f.Name()+": the text keeps the WGSL suffix (64u, 1.5f) and may be hexadecimal, so the parse fails or stops early and the caller falls back to a default")
+			}
+			return true
+		})
+	}
+	r.inst("literal.parses", n)
+}
